@@ -184,6 +184,8 @@ def run(p: Program, rep: Report, tier: str) -> None:
                         if side == "wsgi":
                             okr = a[0] == "call" and a[1] == ("attr", gate, "get") and a[2] and a[2][0] == ("const", key) and (len(a[2]) == 1 or a[2][1] == ("const", ""))
                             okr = okr or (a[0] == "sub" and a[1] == gate and a[2] == ("const", key))
+                            # `environ[K] if K in environ else ""`: the default on the path where the key is absent
+                            okr = okr or (a == ("const", "") and any(t is False and f[0] == "cmp" and f[1] == "In" and f[2] == ("const", key) and f[3] == gate for f, t in pa.facts))
                             if okr:
                                 seen_read = True
                             else:
@@ -297,13 +299,19 @@ def run(p: Program, rep: Report, tier: str) -> None:
                 continue
             member = True
             src = elems[0][1]
+            # members may pass through intermediate generators ((m.strip() for m in header.split(","))): follow them to the
+            # split and keep their per-member transformations
+            stages = [other]
+            while src[0] == "comp":
+                stages.append(src[2])
+                src = src[3]
             split_recv = src[1][1] if (src[0] == "call" and src[1][0] == "attr" and src[1][2] == "split") else None
             if split_recv is None or src[2] != (("const", ","),):
                 rep.violation("R14.4", construct(inm, text=f"members of {show(src)[:60]}"), where(inm), "the header is not split on ',' into members")
                 continue
-            per_member_weak = _mentions_weak(other) or any(_mentions_weak(f) and any(t[0] == "elem" for t in subterms(f)) for f, _ in pa.facts)
+            per_member_weak = any(_mentions_weak(x_) for x_ in stages) or any(_mentions_weak(f) and any(t[0] == "elem" for t in subterms(f)) for f, _ in pa.facts)
             whole_weak = split_recv != HDR
-            quotes = any(t[0] == "call" and t[1][0] == "attr" and t[1][2] == "strip" and t[2] == (("const", '"'),) for t in subterms(other))
+            quotes = any(t[0] == "call" and t[1][0] == "attr" and t[1][2] == "strip" and t[2] == (("const", '"'),) for x_ in stages for t in subterms(x_))
             if whole_weak:
                 rep.violation("R14.4", construct(inm, text="if_none_match[2:] before split"), where(inm),
                               "the weak prefix 'W/' is stripped from the whole header before it is split: a weak tag that is not the first list member never matches (a fresh copy is re-sent), and a leading 'W/' is cut off a strong first member")
